@@ -24,10 +24,10 @@ pub enum Ev {
 
 pub type Log = Rc<RefCell<Vec<Ev>>>;
 
-/// Hands out at most one line per `read` call; call number `fail_at` (1-based) fails.
+/// Hands out one recorded chunk per `read` call (a chunk is whatever one call of the underlying stream returns: a whole
+/// line, a piece of a line, several lines); call number `fail_at` (1-based) and all later calls fail.
 pub struct LineReader {
-    data: Vec<u8>,
-    pos: usize,
+    chunks: std::collections::VecDeque<Vec<u8>>,
     calls: usize,
     fail_at: Option<usize>,
     log: Log,
@@ -39,15 +39,13 @@ impl Read for LineReader {
             self.log.borrow_mut().push(Ev::ReadFail);
             return Err(io::Error::new(io::ErrorKind::Other, "injected read fault"));
         }
-        let rest = &self.data[self.pos..];
-        let n = match rest.iter().position(|&b| b == b'\n') {
-            Some(i) => i + 1,
-            None => rest.len(),
+        let mut chunk = self.chunks.pop_front().unwrap_or_default();
+        let n = chunk.len().min(buf.len());
+        buf[..n].copy_from_slice(&chunk[..n]);
+        if n < chunk.len() {
+            self.chunks.push_front(chunk.split_off(n));
         }
-        .min(buf.len());
-        buf[..n].copy_from_slice(&rest[..n]);
-        self.pos += n;
-        self.log.borrow_mut().push(Ev::Read(rest[..n].to_vec()));
+        self.log.borrow_mut().push(Ev::Read(chunk[..n].to_vec()));
         Ok(n)
     }
 }
@@ -80,7 +78,8 @@ impl Write for BudgetWriter {
 
 #[derive(Default, Clone)]
 pub struct RunCfg {
-    pub input: Vec<u8>,
+    /// what successive `read` calls return
+    pub input: Vec<Vec<u8>>,
     pub out_budget: Option<usize>,
     pub in_fail_at: Option<usize>,
 }
@@ -146,8 +145,7 @@ pub fn panic_msg(p: Box<dyn std::any::Any + Send>) -> String {
 pub fn run(program: &Program, cfg: &RunCfg) -> RunObs {
     let log: Log = Rc::new(RefCell::new(Vec::new()));
     let reader = LineReader {
-        data: cfg.input.clone(),
-        pos: 0,
+        chunks: cfg.input.iter().cloned().collect(),
         calls: 0,
         fail_at: cfg.in_fail_at,
         log: log.clone(),
